@@ -268,6 +268,9 @@ def blocks_to_bytes(
 
             arg_value = args[block_index, instruction_index]
             n_args = instruction._n_args_override or _instrsize(arg_value)
+            # The extended args of the instruction are on the same line
+            for i in range(1, n_args):
+                line_mapping.offset_to_line[offset + i * 2] = instruction.line_number
             # Duplicate semantics of write_op_arg
             # to produce the the right number of extended arguments
             # https://github.com/python/cpython/blob/b2e5794870eb4728ddfaafc0f79a40299576434f/Python/wordcode_helpers.h#L22-L44
